@@ -6,6 +6,7 @@ import (
 	"fmt"
 	"math/big"
 	"sort"
+	"time"
 
 	"github.com/ethereum/go-ethereum/common"
 )
@@ -156,7 +157,7 @@ func (w *World) nextStep(r *Rand) Step {
 // modifiers are weights that tune block generation instead of naming a step kind
 func isModifier(k string) bool {
 	switch k {
-	case "p.absent", "p.evidence", "p.round", "p.engine", "p.crash", "p.timejump", "p.reexec", "p.skew", "p.byz", "p.elrestart", "p.junk", "p.finfault", "p.shadowdiff", "p.multisched":
+	case "p.absent", "p.evidence", "p.round", "p.engine", "p.crash", "p.timejump", "p.reexec", "p.skew", "p.byz", "p.elrestart", "p.junk", "p.finfault", "p.shadowdiff", "p.multisched", "p.timecollide":
 		return true
 	}
 	return false
@@ -173,6 +174,23 @@ func (w *World) genBlock(r *Rand) *BlockArgs {
 		mult := []int64{5, 15, 40, 120}[r.Intn(4)]
 		a.DtMs = base * mult
 		w.fault("bft-time-jump")
+	}
+	if d := time.Duration(cfg.ExitSec-cfg.UnlockSec) * time.Second; d > 0 && r.Chance(w.weight("p.timecollide")) {
+		// a block exactly (exit period - unlock period) after an earlier one: an ordinary unlock
+		// requested now matures at the very instant an exit requested then does (one queue key)
+		var gaps []int64
+		for h := w.Cmt.Height; h > 0 && h > w.Cmt.Height-40; h-- {
+			if blk := w.Cmt.Blocks[h]; blk != nil {
+				gap := blk.Time.Add(d).Sub(w.Cmt.Time).Milliseconds()
+				if gap >= 200 && gap <= 30*base {
+					gaps = append(gaps, gap)
+				}
+			}
+		}
+		if len(gaps) > 0 {
+			a.DtMs = pick(r, gaps)
+			w.probe("block-time-collides-with-exit-maturity")
+		}
 	}
 	if cfg.FaultFree {
 		return a
